@@ -25,10 +25,21 @@ structure ExchangeRate where
   toExp  : Nat
 deriving Repr, Inhabited
 
-/-- `ExchangeRate.Convert`: multiply (at the precision of the amount), then rescale
-    to the destination currency -/
+/-- `ExchangeRate.Convert` (as repaired by 6f2aa78): the product is rounded once,
+    by `Multiply`, at the destination currency's precision `exp`.  An amount finer
+    than `exp` hands its extra decimals to the rate (`MakeAmount(rate.Value(),
+    rate.Exp()+extra)`, `MakeAmount(amount.Value(), exp)`: same product, divisor
+    `10^(rate.exp+extra)`), a coarser one is raised first (`RescaleUp(exp)`,
+    integer scaling). -/
 def ExchangeRate.convert (er : ExchangeRate) (amount : Amount) : Amount :=
-  (amount.multiply er.amount).rescale er.toExp
+  let exp := er.toExp
+  if amount.exp > exp then
+    let extra := amount.exp - exp
+    let rate : Amount := ⟨er.amount.value, er.amount.exp + extra⟩
+    let amount : Amount := ⟨amount.value, exp⟩
+    (amount.rescaleUp exp).multiply rate
+  else
+    (amount.rescaleUp exp).multiply er.amount
 
 /-- `currency.MatchExchangeRate` -/
 def matchExchangeRate (rates : List ExchangeRate) (frm to : String) : Option ExchangeRate :=
